@@ -1970,6 +1970,14 @@ func (tc *typechecker) checkCompositeLiteral(node *ast.CompositeLiteral, typ ref
 
 	case reflect.Slice, reflect.Array:
 
+		if maxIndex == -1 && len(node.KeyValues) > 0 {
+			// The type is not an array or slice type literal (a defined type
+			// or an elided type): the indexes have not been checked yet.
+			maxIndex = tc.maxIndex(node)
+			if ti.Type.Kind() == reflect.Array && maxIndex >= ti.Type.Len() {
+				panic(tc.errorf(node, "array index %d out of bounds [0:%d]", maxIndex, ti.Type.Len()))
+			}
+		}
 		hasIndex := map[int]struct{}{}
 		index := -1
 		for i := range node.KeyValues {
